@@ -158,8 +158,7 @@ def run_c17(run, tier, wd, binary, replay):
     value_model(run, bd)
     rng = random.Random(run.seed * 19 + 17)
     cases = vl.twin_cases(rng, True)
-    if tier == "thorough":
-        cases = cases * 1       # the representative lists are the family; thorough adds nothing random for C17
+    cases += vl.random_reps(rng, 60 if tier == "quick" else 2500)     # seeded magnitudes / shapes inside the identity classes
     if replay:
         rec = json.load(open(replay))["replay"]["record"]
         cases = [c for c in cases if c["class"] == rec["class"] and c["ftype"] == rec["ftype"]]
